@@ -58,7 +58,7 @@ def discharge(vc, timeout_ms=10000, use_cvc5=True, keep_model=True):
     t0 = time.time()
     # first a short attempt with everything (most obligations are easy)
     s1 = z3.Solver()
-    s1.set("timeout", min(1500, max(300, timeout_ms // 6)))
+    s1.set("timeout", min(3000, max(500, timeout_ms // 4)))
     for c in vc.pc:
         s1.add(c)
     s1.add(z3.Not(vc.goal))
@@ -69,7 +69,7 @@ def discharge(vc, timeout_ms=10000, use_cvc5=True, keep_model=True):
     if r1 == z3.unsat:
         return Verdict(vc.name, "proved", "z3", time.time() - t0, meta=vc.meta, smt_size=len(s1.sexpr()))
     if r1 == z3.unknown and use_cvc5:
-        v = _cvc5(vc, s1, 3)
+        v = _cvc5(vc, s1, 5)
         if v is not None:
             v.secs = time.time() - t0
             return v
@@ -90,7 +90,9 @@ def discharge(vc, timeout_ms=10000, use_cvc5=True, keep_model=True):
             except z3.Z3Exception:
                 pass
     s = z3.Solver()
-    s.set("timeout", timeout_ms)
+    # generous last attempt: an `unknown` on the unchanged tree is far more costly than a slow run (the machine that
+    # runs the checks may be many times slower / busier than the one they were written on)
+    s.set("timeout", timeout_ms * 12)
     for c in vc.pc:
         s.add(c)
     s.add(z3.Not(vc.goal))
@@ -128,7 +130,7 @@ def discharge(vc, timeout_ms=10000, use_cvc5=True, keep_model=True):
         return Verdict(vc.name, "refuted", "z3+enum", time.time() - t0, model=m if keep_model else None, meta=vc.meta,
                        smt_size=len(s.sexpr()))
     if use_cvc5:
-        v = _cvc5(vc, s, max(2, timeout_ms // 1000))
+        v = _cvc5(vc, s, max(30, 6 * timeout_ms // 1000))
         if v is not None:
             v.secs = time.time() - t0
             return v
